@@ -26,8 +26,25 @@ enum Act {
 
 const MS: u64 = 1_000_000;
 
-fn acts(full: bool) -> Vec<Act> {
+fn acts(full: bool, nb: usize) -> Vec<Act> {
     let mut a = Vec::new();
+    if nb == 3 {
+        // three waiters on one key: two with the same timeout, one waiting forever (a seeded slip in the removal of
+        // several expired waiters in one pass needed three to show); a reduced alphabet keeps the depth reachable
+        for c in 0..3usize {
+            a.push(Act::Block(c, true, vec!["k"], if c == 2 { 0 } else { 1000 }));
+            a.push(Act::Block(c, false, vec!["k", "k2"], 1000));
+            a.push(Act::Close(c));
+        }
+        a.push(Act::TickRel(0, MS as i64));
+        a.push(Act::TickRel(1, -(MS as i64)));
+        a.push(Act::Tick(10_000 * MS));
+        a.push(Act::Produce(vec![vec!["RPUSH", "k", "$1"]]));
+        a.push(Act::Produce(vec![vec!["RPUSH", "k", "$1", "$2"]]));
+        a.push(Act::Produce(vec![vec!["RPUSH", "k2", "$1"]]));
+        a.push(Act::Produce(vec![vec!["RPUSH", "k", "$1"], vec!["LPOP", "k"]]));
+        return a;
+    }
     for c in 0..2usize {
         a.push(Act::Block(c, true, vec!["k"], 0));
         a.push(Act::Block(c, true, vec!["k"], 1000));
@@ -68,6 +85,8 @@ struct Blocked {
 
 pub struct BlockWorld {
     full: bool,
+    /// number of blocking clients (the producer is connection nb)
+    nb: usize,
     acts: Vec<Act>,
     srv: Option<Srv>,
     conns: Vec<Option<Client>>, // 0,1 blockers; 2 producer
@@ -85,13 +104,13 @@ pub struct BlockWorld {
 }
 
 impl BlockWorld {
-    fn new(full: bool) -> BlockWorld {
+    fn new(full: bool, nb: usize) -> BlockWorld {
         vtime::enable();
-        BlockWorld { full, acts: acts(full), srv: None, conns: vec![None, None, None], aux: None, blocked: vec![None, None], pushed: vec![], delivered: vec![], popped_by_producer: vec![], step: 0, uniq: 0, t0: 0, restarts: 0, before_del: vec![], last_lists: BTreeMap::new() }
+        BlockWorld { full, nb, acts: acts(full, nb), srv: None, conns: (0..nb + 1).map(|_| None).collect(), aux: None, blocked: (0..nb).map(|_| None).collect(), pushed: vec![], delivered: vec![], popped_by_producer: vec![], step: 0, uniq: 0, t0: 0, restarts: 0, before_del: vec![], last_lists: BTreeMap::new() }
     }
 
     fn settle(&mut self) -> Result<Vec<Vec<R>>, String> {
-        let mut out: Vec<Vec<R>> = vec![vec![], vec![], vec![]];
+        let mut out: Vec<Vec<R>> = (0..self.nb + 1).map(|_| Vec::new()).collect();
         let mut idle = 0;
         let mut rounds = 0;
         while idle < 3 {
@@ -145,7 +164,7 @@ impl BlockWorld {
         let mut problems = Vec::new();
         // who was blocked on what before this step (for FIFO)
         let before: Vec<Option<Blocked>> = self.blocked.clone();
-        for c in 0..2 {
+        for c in 0..self.nb {
             for f in frames[c].iter() {
                 let b = match &before[c] {
                     Some(b) => b.clone(),
@@ -182,7 +201,7 @@ impl BlockWorld {
                             problems.push("served-from-a-key-it-did-not-ask-for".to_string());
                         }
                         // FIFO: nobody who blocked earlier on that key may still be waiting (unless served in this same step)
-                        for o in 0..2 {
+                        for o in 0..self.nb {
                             if o != c {
                                 if let Some(ob) = &before[o] {
                                     let also_served_now = frames[o].iter().any(|x| matches!(x, R::Arr(_)));
@@ -230,7 +249,7 @@ impl BlockWorld {
             }
         }
         // (3) promptness, (4) liveness of timeouts
-        for c in 0..2 {
+        for c in 0..self.nb {
             if let Some(b) = &self.blocked[c] {
                 if self.conns[c].is_none() {
                     continue;
@@ -265,7 +284,7 @@ impl BlockWorld {
             }
         }
         let rows = (srv.h.connections)();
-        for c in 0..2 {
+        for c in 0..self.nb {
             let id = match &self.conns[c] {
                 Some(cl) => cl.id,
                 None => continue,
@@ -353,10 +372,10 @@ impl World for BlockWorld {
                 return Err("FLUSHALL failed".into());
             }
         }
-        for i in 0..3 {
+        for i in 0..self.nb + 1 {
             self.conns[i] = Some(self.srv.as_ref().unwrap().connect().map_err(|e| format!("{:?}", e))?);
         }
-        self.blocked = vec![None, None];
+        self.blocked = (0..self.nb).map(|_| None).collect();
         self.pushed.clear();
         self.delivered.clear();
         self.popped_by_producer.clear();
@@ -405,7 +424,7 @@ impl World for BlockWorld {
                     bytes.extend(resp::cmd(&args));
                 }
                 self.pushed.extend(pushed_now);
-                self.conns[2].as_mut().unwrap().send(&bytes);
+                self.conns[self.nb].as_mut().unwrap().send(&bytes);
             }
             Act::TickRel(c, d) => {
                 let now = vtime::mono_ns();
@@ -443,10 +462,10 @@ impl World for BlockWorld {
         let now = vtime::mono_ns();
         // producer replies: LPOP results count as pops by a non-blocked client
         if let Act::Produce(cmds) = &a {
-            if frames[2].len() != cmds.len() {
+            if frames[self.nb].len() != cmds.len() {
                 problems.push("producer-reply-count".to_string());
             }
-            for (cmd, f) in cmds.iter().zip(frames[2].iter()) {
+            for (cmd, f) in cmds.iter().zip(frames[self.nb].iter()) {
                 if cmd[0] == "LPOP" {
                     if let R::Bulk(b) = f {
                         self.popped_by_producer.push(String::from_utf8_lossy(b).to_string());
@@ -542,7 +561,7 @@ impl World for BlockWorld {
         }
         problems.sort();
         problems.dedup();
-        obs.push_str(&format!("{} -> c0:{} c1:{} p:{}", self.sig_act(&a), frames[0].iter().map(resp::class).collect::<Vec<_>>().join(","), frames[1].iter().map(resp::class).collect::<Vec<_>>().join(","), frames[2].iter().map(resp::class).collect::<Vec<_>>().join(",")));
+        obs.push_str(&format!("{} -> {}", self.sig_act(&a), frames.iter().enumerate().map(|(i, f)| format!("{}:{}", if i == self.nb { "p".to_string() } else { format!("c{}", i) }, f.iter().map(resp::class).collect::<Vec<_>>().join(","))).collect::<Vec<_>>().join(" ")));
         if problems.is_empty() {
             Ok(StepOut { ok: true, dev: None, obs })
         } else {
@@ -558,23 +577,22 @@ impl World for BlockWorld {
         let lists = self.lists()?;
         let now = vtime::mono_ns();
         let mut s = format!("{:?}|", lists.iter().map(|(k, v)| (k.clone(), v.len())).collect::<Vec<_>>());
-        for c in 0..2 {
+        for c in 0..self.nb {
             s.push_str(&match (&self.conns[c], &self.blocked[c]) {
                 (None, _) => "closed|".to_string(),
                 (Some(_), None) => "idle|".to_string(),
-                (Some(_), Some(b)) => format!("blocked keys={:?} left={} rem={:?} order={}|", b.keys, b.left, b.deadline.map(|d| d as i128 - now as i128), b.since_step),
+                (Some(_), Some(b)) => format!("blocked keys={:?} left={} rem={:?}|", b.keys, b.left, b.deadline.map(|d| d as i128 - now as i128)),
             });
         }
         // relative blocking order only
         let order: Vec<usize> = {
-            let mut v: Vec<(usize, usize)> = (0..2).filter_map(|c| self.blocked[c].as_ref().map(|b| (b.since_step, c))).collect();
+            let mut v: Vec<(usize, usize)> = (0..self.nb).filter_map(|c| self.blocked[c].as_ref().map(|b| (b.since_step, c))).collect();
             v.sort();
             v.into_iter().map(|x| x.1).collect()
         };
-        let s = s.replace(&format!("order={}", self.blocked[0].as_ref().map(|b| b.since_step).unwrap_or(0)), "").replace(&format!("order={}", self.blocked[1].as_ref().map(|b| b.since_step).unwrap_or(0)), "");
         let srv = self.srv.as_ref().unwrap();
         let (waiters, wakeq, flags) = srv.h.blocking.verif_snapshot();
-        let idx = |id: u64| (0..3).find(|i| self.conns[*i].as_ref().map(|c| c.id) == Some(id)).map(|i| i as i64).unwrap_or(-1);
+        let idx = |id: u64| (0..self.nb + 1).find(|i| self.conns[*i].as_ref().map(|c| c.id) == Some(id)).map(|i| i as i64).unwrap_or(-1);
         let reg: Vec<String> = waiters.iter().map(|w| format!("{}:{}:c{}:{}", w.db, String::from_utf8_lossy(&w.key), idx(w.conn_id), w.op)).collect();
         // (every piece of registry state goes into the fingerprint: two states that differ only in the set of
         // flagged keys have different futures - a seeded change that left a waiter unflagged was merged away without it)
@@ -607,8 +625,9 @@ impl BlockWorld {
 
 fn make_world(spec: &str) -> Option<Box<dyn World>> {
     match spec {
-        "c13-core" => Some(Box::new(BlockWorld::new(false))),
-        "c13-full" => Some(Box::new(BlockWorld::new(true))),
+        "c13-core" => Some(Box::new(BlockWorld::new(false, 2))),
+        "c13-full" => Some(Box::new(BlockWorld::new(true, 2))),
+        "c13-three" => Some(Box::new(BlockWorld::new(false, 3))),
         _ => None,
     }
 }
@@ -618,6 +637,7 @@ fn prop() -> DataProp {
         id: "C13",
         specs: vec![
             SpecRun { spec: "c13-core", depth_quick: 5, depth_thorough: 9, budget_quick_s: 35.0, budget_thorough_s: 1800.0 },
+            SpecRun { spec: "c13-three", depth_quick: 5, depth_thorough: 7, budget_quick_s: 30.0, budget_thorough_s: 1800.0 },
             SpecRun { spec: "c13-full", depth_quick: 0, depth_thorough: 7, budget_quick_s: 0.0, budget_thorough_s: 1800.0 },
         ],
         make_world,
